@@ -26,23 +26,30 @@ _tables = {}
 
 
 def raw_tables(sym):
-    """(common valences, exception rows) of the element class of the tree under verification - raw properties only"""
+    """(common valences, exception rows) of the element class of the tree under verification - raw properties only.
+    Rows are pre-digested once per element: {(charge, radical): [(implicit, ((bond, count), ...), sum of env orders), ...]} in table order"""
     t = _tables.get(sym)
     if t is None:
         from chython.periodictable import Element
         a = Element.from_symbol(sym)()
-        t = _tables[sym] = (tuple(a._common_valences), tuple((c, bool(r), i, tuple(e)) for c, r, i, e in a._valences_exceptions))
+        rows = {}
+        for c, r, i, e in a._valences_exceptions:
+            need = Counter((int(o), str(x)) for o, x in e)
+            rows.setdefault((c, bool(r)), []).append((i, tuple(need.items()), sum(o for o, _ in e)))
+        t = _tables[sym] = (tuple(a._common_valences), rows)
     return t
 
 
 def candidates(sym, charge, radical, env):
     """ordered hydrogen-count candidates; env = iterable of (order, neighbour symbol), orders 1..3"""
-    env = list(env)
     if sym == 'H':
         return [0]
-    s = sum(o for o, _ in env)
-    have = Counter(env)
-    common, exceptions = raw_tables(sym)
+    have = {}
+    s = 0
+    for k in env:
+        s += k[0]
+        have[k] = have.get(k, 0) + 1
+    common, rows = raw_tables(sym)
     out = []
     if charge == 0 and not radical:
         if common and common[0]:
@@ -56,19 +63,17 @@ def candidates(sym, charge, radical, env):
             for w in common:
                 if s == w:
                     out.append(0)
-    for c, r, implicit, renv in exceptions:
-        if c != charge or r != bool(radical):
-            continue
-        need = Counter(renv)
-        if any(have[k] < n for k, n in need.items()):
-            continue
-        e = sum(o for o, _ in renv)
+    for implicit, need, e in rows.get((charge, bool(radical)), ()):
         if implicit:
             h = e + implicit - s
-            if 0 <= h <= implicit:
-                out.append(h)
-        elif s == e:
-            out.append(0)
+            if not 0 <= h <= implicit:
+                continue
+        elif s != e:
+            continue
+        else:
+            h = 0
+        if all(have.get(k, 0) >= n for k, n in need):
+            out.append(h)
     return out
 
 
